@@ -108,11 +108,12 @@ type Wrap func(storage.Storage) storage.Storage
 
 // OpenFull = what app.GenerateBitXHubWithoutOrder does: chain db, state db, NewBlockFile, ledger.New.
 func OpenFull(dir string, wrapChain, wrapState Wrap) (*Stores, error) {
-	cs, err := leveldb.New(filepath.Join(dir, "storage"))
+	// the layout of app.GenerateBitXHubWithoutOrder: <root>/storage/{blockchain,ledger,blockfile}
+	cs, err := leveldb.New(filepath.Join(dir, "storage", "blockchain"))
 	if err != nil {
 		return nil, fmt.Errorf("open chain db: %w", err)
 	}
-	ss, err := leveldb.New(filepath.Join(dir, "ledger"))
+	ss, err := leveldb.New(filepath.Join(dir, "storage", "ledger"))
 	if err != nil {
 		cs.Close()
 		return nil, fmt.Errorf("open state db: %w", err)
@@ -145,7 +146,7 @@ func OpenFull(dir string, wrapChain, wrapState Wrap) (*Stores, error) {
 
 // OpenChain opens the chain ledger alone (NewChainLedgerImpl).
 func OpenChain(dir string) (*Stores, error) {
-	cs, err := leveldb.New(filepath.Join(dir, "storage"))
+	cs, err := leveldb.New(filepath.Join(dir, "storage", "blockchain"))
 	if err != nil {
 		return nil, err
 	}
